@@ -764,7 +764,7 @@ trie_iter_next(qb_map_iter_t * i, void **value)
 		si->root = trie_lookup(t, si->prefix, QB_FALSE);
 		if (si->root == NULL) {
 			si->n = NULL;
-		} else if (si->root->value == NULL) {
+		} else if (si->root->value == NULL || si->root->removed) {
 			si->n = trie_node_next(si->root, si->root, QB_FALSE);
 		} else {
 			si->n = si->root;
